@@ -24,7 +24,7 @@ RULE = (
     "top-to-bottom equals the cells' text; header and rows unchanged. non-trivial = at least one column wrapped (natural "
     "width exceeds the available width); distinct by (shape, length-class vector, W, style, alignments)."
 )
-BOUND = {"quick": "4000 tables", "thorough": "300000 tables"}
+BOUND = {"quick": "4000 tables", "thorough": "144000 tables"}
 ASSUMPTIONS = [
     "precondition from the statement: W - indentation - border width - n*cell padding >= n (one character per column)",
     "styles whose right border is blank have their trailing blanks stripped by design; equality of widths is asserted for them with a visible padding character",
@@ -125,6 +125,13 @@ def gen_table(rng):
             row.append(gen_cell(rng, c, cls, False, tagged))
         rows.append(row)
     hdr = [gen_cell(rng, c, rng.choice(["w1", "w1", "mid", "w5"]), True, False) for c in range(n)] if header else None
+    shared = (not tagged) and n >= 2 and rng.random() < 0.08
+    if shared:
+        # identical texts in several columns (column attribution by alphabet is not possible for these tables)
+        pool = [gen_cell(rng, 0, rng.choice(["w5", "w40", "mid", "long"])) for _ in range(3)]
+        rows = [[rng.choice(pool) if rng.random() < 0.7 else gen_cell(rng, 0, "w1") for _ in range(n)] for _ in range(nrows)]
+        if hdr:
+            hdr = [h.upper().translate(str.maketrans("CDEFGHIJKL", "ABABABABAB")) for h in hdr]
     style = rng.choice(STYLES)
     padding = rng.choice([" ", " ", "."])
     aligns = [rng.choice("LLRC") for _ in range(n)] if rng.random() < 0.5 else []
@@ -135,7 +142,7 @@ def gen_table(rng):
     W = rng.choice([wmin, wmin + 1, wmin + rng.randint(0, 10), rng.randint(max(20, wmin), max(200, wmin)), 80, 120, 200])
     W = max(W, wmin)
     return dict(header=hdr, rows=rows, style=style, padding=padding, aligns=aligns, indent=indent, width=W, ansi=rng.random() < 0.5,
-                profile=prof, tagged=tagged, classes=classes)
+                profile=prof, tagged=tagged, classes=classes, shared=shared)
 
 
 def natural(case):
@@ -214,6 +221,38 @@ def judge(sh, lab, case):
         sh.violate("table-modified", case, "a second render of the same table raised %r" % (e,), classify(case, "raises"))
     if io.fetch_error():
         sh.violate("wrong-stream", case, "render wrote to the error output")
+    if hash(out) % 4 == 0:
+        new_hdr = [(c + " N").upper() if c else "N" for c in (case["header"] or case["rows"][0])]
+        new_hdr = [h if h.strip() else "N" for h in new_hdr]
+        extra_row = list(case["rows"][0])
+        try:
+            variant = (hash(out) // 4) % 3
+            added = []
+            if variant == 0:
+                t.set_header_row(list(new_hdr))  # only the header changes
+            elif variant == 1:
+                t.add_row(list(extra_row))
+                t.set_header_row(list(new_hdr))
+                added = [list(extra_row)]
+            else:
+                t.set_header_row(list(new_hdr))
+                t.add_row(list(extra_row))
+                added = [list(extra_row)]
+            io3 = lab.BufferedIO("", lab.AnsiFormatter(forced=True) if case["ansi"] else lab.PlainFormatter())
+            io3.set_terminal_dimensions(lab.Rectangle(case["width"], 20))
+            t.render(io3, case["indent"])
+            fresh = lab.Table(lab.style(case["style"], case["padding"], case["aligns"]))
+            fresh.set_header_row(list(new_hdr))
+            fresh.add_rows(copy.deepcopy(case["rows"]) + added)
+            io4 = lab.BufferedIO("", lab.AnsiFormatter(forced=True) if case["ansi"] else lab.PlainFormatter())
+            io4.set_terminal_dimensions(lab.Rectangle(case["width"], 20))
+            fresh.render(io4, case["indent"])
+            sh.count("modify_then_render")
+            if io3.fetch_output() != io4.fetch_output():
+                sh.violate("table-modified", case, "after set_header_row/add_row the table renders differently from a new table with the same content")
+        except Exception as e:
+            if not (case["tagged"] and classify(case, "raises")):
+                sh.violate("table-modified", case, "re-rendering after set_header_row/add_row raised %r" % (e,), classify(case, "raises"))
     lines = [visible(l) for l in out.split("\n")]
     if lines and lines[-1] == "":
         lines.pop()
@@ -229,6 +268,14 @@ def judge(sh, lab, case):
     visible_edge = r_ch != "" or case["padding"] != " "
     if r_ch != "" and len(widths) != 1:
         sh.violate("rectangle", case, "lines of different widths %r" % sorted(widths), classify(case, "rectangle"))
+        return
+    if case.get("shared"):
+        # only the clauses that need no column attribution: total text, in reading order per column is not decidable
+        want = sorted("".join(re.sub(r"\s+", "", c) for row in (([case["header"]] if case["header"] else []) + case["rows"]) for c in row))
+        got = sorted(ch for l in lines if is_row_line(l, case) for ch in l if ch.isalpha())
+        sh.count("shared_text_tables")
+        if got != want:
+            sh.violate("text-preserved", case, "the rendered table has %d letters, the cells %d" % (len(got), len(want)))
         return
     # (4) column spans
     ind = case["indent"]
@@ -300,8 +347,8 @@ def judge(sh, lab, case):
 
 def plan(tier, seed):
     if tier == "quick":
-        return [{"n": 1000} for _ in range(4)]
-    return [{"n": 18750} for _ in range(16)]
+        return [{"n": 500} for _ in range(8)]
+    return [{"n": 9000} for _ in range(16)]
 
 
 def run(sh, spec):
